@@ -18,8 +18,12 @@ CANDSETS = [
     [{"v": "dir/"}, {"v": "dir2/"}, {"v": "file"}],
     [{"v": "FooBar"}, {"v": "foobar2"}, {"v": "FOO"}],
     [{"v": "a"}, {"v": "ab"}, {"v": "abc"}, {"v": "abcd"}],
+    [{"v": "FooBar"}],
+    [{"v": "Héllo"}, {"v": "xyz"}],
+    [{"v": "foo1", "tag": "t1"}, {"v": "foo2", "tag": "t2"}, {"v": "foo3", "tag": "t3"}, {"v": "foo4", "tag": "t1", "desc": "d"}, {"v": "fo5", "tag": "t3"}],
 ]
-MENU_KEYS = [b"\t", b"\t", b"\x1b[Z", b"\x1b[B", b"\x1b[A", b"\x1b[C", b"\x1b[D", b"\x0e", b"\x10"]
+MENU_KEYS = [b"\t", b"\t", b"\x1b[Z", b"\x1b[B", b"\x1b[A", b"\x1b[C", b"\x1b[D", b"\x0e", b"\x10", b"\x1b[1;5B", b"\x1b[1;5A"]
+COMPLETE_CMDS = ("complete", "menu-complete", "menu-complete-backward")
 END_KEYS = [b"\x03", b"\x03", b"\r", b"x", b" ", b"\x00", b"\x7f", b"\x07"]
 
 
@@ -65,6 +69,10 @@ def project(cs, evs, metas):
                 # the menu is closed (candidate accepted, or there was nothing to complete): the experiment is over
                 if nread >= 1:
                     line0 = None
+        elif (e["ev"] == "end" and e["cmd"] in COMPLETE_CMDS and e["local"] != "menu-select" and line0 is not None and not waiting_pre
+              and exp < len(metas) and nread == 1):
+            # the first Tab closed the completion at once: nothing to complete, or automatic acceptance of a unique match
+            out.append(({"ev": "shown", "line0": line0, "cur0": cur0, "cands": metas[exp]["cands"], "line": e["line"]}, {"meta": metas[exp], "s": 0, "auto": True}))
         elif e["ev"] == "begin" and e["cmd"] == "abort":
             pre_abort = e
         elif e["ev"] == "end" and e["cmd"] == "abort" and pre_abort is not None and line0 is not None and exp < len(metas):
